@@ -264,7 +264,10 @@ fn run_generate(
     reporter.complete_step(Some(&format!("Generated {} files", generated_files.len())));
 
     // Generate dependency visualization if requested
+    let mut vouched_files = generated_files.clone();
     if config.should_visualize_deps() {
+        vouched_files.push("dependency-graph.txt".to_string());
+        vouched_files.push("dependency-graph.dot".to_string());
         let text_viz = analyzer.visualize_dependencies(&commands);
         let viz_file_path = PathBuf::from(&config.output_path).join("dependency-graph.txt");
         fs::write(&viz_file_path, text_viz)?;
@@ -282,7 +285,8 @@ fn run_generate(
         discovered_structs,
         analyzer.get_discovered_events(),
         &config,
-    )?;
+    )?
+    .with_generated_files(&vouched_files);
     if let Err(e) = cache.save(&config.output_path) {
         eprintln!("Warning: Failed to save generation cache: {}", e);
     }
